@@ -501,6 +501,7 @@ type FuncContract struct {
 	ChanInvs   []chanInvDef
 	Defines    *ECall // `defines result == F(params)`: definitional name of the closure a constructor returns
 	NoVerify   bool
+	Flows      []*FlowClause
 }
 
 type LetDef struct {
@@ -539,18 +540,18 @@ type SpecSet struct {
 	Axioms  []*Axiom
 	Ghosts  map[string]*GhostVar
 	Chans   map[string]string
-	Secrets map[string]bool // pkg.Type.field marked secret (taint sources)
+	Secrets map[string]*SecretField // pkg.Type.field -> functions allowed to read it
 	GlobalChanInvs []chanInvDef // invariants of channels held in struct fields: Name is pkg.Type.field
 	Errors  []string
 }
 
 func NewSpecSet() *SpecSet {
-	return &SpecSet{Funcs: map[string]*FuncContract{}, Thor: map[string]*FuncContract{}, Specs: map[string]*SpecFunc{}, Ghosts: map[string]*GhostVar{}, Chans: map[string]string{}, Secrets: map[string]bool{}}
+	return &SpecSet{Funcs: map[string]*FuncContract{}, Thor: map[string]*FuncContract{}, Specs: map[string]*SpecFunc{}, Ghosts: map[string]*GhostVar{}, Chans: map[string]string{}, Secrets: map[string]*SecretField{}}
 }
 
 var clauseKeywords = map[string]bool{"spec": true, "axiom": true, "ghost": true, "func": true, "requires": true, "ensures": true,
 	"modifies": true, "loop": true, "at": true, "maypanic": true, "inline": true, "trusted": true, "pure": true, "check": true,
-	"let": true, "chanmode": true, "chaninv": true, "defines": true, "maintains": true, "thorough": true, "secret": true, "noverify": true, "ghostparam": true}
+	"let": true, "chanmode": true, "chaninv": true, "defines": true, "maintains": true, "thorough": true, "secret": true, "flows": true, "noverify": true, "ghostparam": true}
 
 // ReadSpecFile reads //@ lines. pkgPrefix is prepended to `func` keys that are
 // not already qualified (contract files inside a package use short keys).
@@ -635,7 +636,21 @@ func (ss *SpecSet) ReadSpecFile(path, pkgPrefix string) error {
 			}
 			ss.Chans[qualify(f[0], pkgPrefix)] = f[1]
 		case "secret":
-			ss.Secrets[qualify(rest, pkgPrefix)] = true
+			// secret [Cnn] Type.field readers KEY, KEY, ...
+			tc := &Clause{}
+			body := parseTags(rest, tc)
+			parts := strings.SplitN(body, " readers ", 2)
+			if len(parts) != 2 {
+				fail(rc.line, "secret [Cnn] Type.field readers KEY, ...")
+				continue
+			}
+			sf := &SecretField{Field: qualify(strings.TrimSpace(parts[0]), pkgPrefix), Props: tc.Props}
+			for _, r := range strings.Split(parts[1], ",") {
+				if r = strings.TrimSpace(r); r != "" {
+					sf.Readers = append(sf.Readers, qualify(r, pkgPrefix))
+				}
+			}
+			ss.Secrets[sf.Field] = sf
 		case "thorough", "func":
 			thor := kw == "thorough"
 			if thor {
@@ -774,6 +789,14 @@ func (ss *SpecSet) ReadSpecFile(path, pkgPrefix string) error {
 					}
 					cur.Modifies = append(cur.Modifies, ModLoc{part, e})
 				}
+			case "flows":
+				fl, err := parseFlowClause(rest)
+				if err != nil {
+					fail(rc.line, "%v", err)
+					continue
+				}
+				fl.Line = rc.line
+				cur.Flows = append(cur.Flows, fl)
 			case "maintains":
 				// an object invariant the function needs, keeps, and (as a goroutine) keeps at every point where
 				// another goroutine can observe the object: requires + ensures + assumed by the spawner
